@@ -8,6 +8,7 @@ import (
 	"os"
 	"os/exec"
 	"path/filepath"
+	"sort"
 	"strings"
 	"unicode"
 )
@@ -529,6 +530,17 @@ func convertMethodDefinition(member RBSMember, aliases typeAliasMap, className s
 	return methods
 }
 
+func sortedKeywordNames(keywords map[string]RBSParam) []string {
+	names := make([]string, 0, len(keywords))
+	for name := range keywords {
+		names = append(names, name)
+	}
+
+	sort.Strings(names)
+
+	return names
+}
+
 func convertArguments(funcType RBSFuncType, aliases typeAliasMap, className string) []TiArgument {
 	var args []TiArgument
 
@@ -561,7 +573,10 @@ func convertArguments(funcType RBSFuncType, aliases typeAliasMap, className stri
 		}
 	}
 
-	for name, kw := range funcType.RequiredKeywords {
+	// Go map iteration order is random: emit keywords in name order so that
+	// the same RBS input always produces the same JSON
+	for _, name := range sortedKeywordNames(funcType.RequiredKeywords) {
+		kw := funcType.RequiredKeywords[name]
 		if kw.Type != nil {
 			types := convertType(*kw.Type, aliases, className)
 			args = append(args, TiArgument{
@@ -571,7 +586,8 @@ func convertArguments(funcType RBSFuncType, aliases typeAliasMap, className stri
 		}
 	}
 
-	for name, kw := range funcType.OptionalKeywords {
+	for _, name := range sortedKeywordNames(funcType.OptionalKeywords) {
+		kw := funcType.OptionalKeywords[name]
 		if kw.Type != nil {
 			types := convertType(*kw.Type, aliases, className)
 			args = append(args, TiArgument{
